@@ -107,6 +107,20 @@ def chainCells : List Rat → List Cell
   | a :: b :: t => (a, b) :: chainCells (b :: t)
   | _ => []
 
+/-- last node of the list `a :: xs` -/
+def lastOr (a : Rat) : List Rat → Rat
+  | [] => a
+  | b :: t => lastOr b t
+
+/-- strictly increasing node list -/
+def StrictSorted : List Rat → Prop
+  | a :: b :: t => a < b ∧ StrictSorted (b :: t)
+  | _ => True
+
+/-- `cells` is a tessellation of the segment with nodes `a :: xs`: its cells, in ANY order -/
+def Tessellates (cells : List Cell) (a : Rat) (xs : List Rat) : Prop :=
+  cells.Perm (chainCells (a :: xs)) ∧ StrictSorted (a :: xs)
+
 /-! ### projections held by a mortar grid -/
 
 structure Proj where
@@ -274,5 +288,101 @@ def step (st : St) : Op → St
 def run (st : St) : List Op → St
   | [] => st
   | op :: ops => run (step st op) ops
+
+/-! ### specification: the per-side view
+
+Mortar cells are numbered side by side, so every grid-to-mortar matrix is the vertical stack of one
+block per side.  `Side` holds the four blocks of one side. -/
+
+structure Side where
+  pInt : Mat
+  pAvg : Mat
+  sInt : Mat
+  sAvg : Mat
+
+/-- the matrices the mortar grid stores, from the per-side blocks -/
+def stackSides (nP nS : Nat) (ss : List Side) : Proj :=
+  let pI := vstack nP (ss.map (·.pInt))
+  let pA := vstack nP (ss.map (·.pAvg))
+  let sI := vstack nS (ss.map (·.sInt))
+  let sA := vstack nS (ss.map (·.sAvg))
+  ⟨pI, pA, sI, sA, pA.T, pI.T, sA.T, sI.T⟩
+
+/-- shapes of one side's blocks -/
+def Side.Shaped (nP nS : Nat) (s : Side) : Prop :=
+  s.pInt.c = nP ∧ s.pAvg.c = nP ∧ s.sInt.c = nS ∧ s.sAvg.c = nS ∧
+  s.pAvg.r = s.pInt.r ∧ s.sInt.r = s.pInt.r ∧ s.sAvg.r = s.pInt.r
+
+/-- the matching interface `__init__` builds: mortar cell `i` of the side is face `pf i` of the
+    primary and cell `sf i` of the secondary -/
+def matchingSide (n nP nS : Nat) (pf sf : Nat → Nat) : Side :=
+  let P := table n nP fun i j => if pf i = j then 1 else 0
+  let S := table n nS fun i j => if sf i = j then 1 else 0
+  ⟨P, P, S, S⟩
+
+inductive SideUpd where
+  /-- the side grid is replaced: left multiplication by the old-to-new mortar maps -/
+  | mortar (mAvg mInt : Mat)
+  /-- the secondary grid is replaced: the maps from secondary are overwritten -/
+  | secondary (sAvg sInt : Mat)
+  /-- the primary grid is replaced: right multiplication by the old-face-to-new-face maps -/
+  | primary (fAvg fInt : Mat)
+
+def Side.apply (s : Side) : SideUpd → Side
+  | .mortar a i => ⟨i.mul s.pInt, a.mul s.pAvg, i.mul s.sInt, a.mul s.sAvg⟩
+  | .secondary a i => { s with sInt := i, sAvg := a }
+  | .primary a i => { s with pInt := s.pInt.mul i, pAvg := s.pAvg.mul a }
+
+/-- what the property claims of one mortar side: `cov` marks the primary faces this side covers,
+    `nP` / `nS` are the numbers of primary faces / secondary cells -/
+structure SideInv (cov : Nat → Prop) (nP nS : Nat) (s : Side) : Prop where
+  pInt_c : s.pInt.c = nP
+  pAvg_c : s.pAvg.c = nP
+  sInt_c : s.sInt.c = nS
+  sAvg_c : s.sAvg.c = nS
+  pAvg_r : s.pAvg.r = s.pInt.r
+  sInt_r : s.sInt.r = s.pInt.r
+  sAvg_r : s.sAvg.r = s.pInt.r
+  /-- averaged map from primary: constants to constants -/
+  pAvg_row : ∀ i, i < s.pInt.r → s.pAvg.rowSum i = 1
+  /-- … and it only reads covered faces -/
+  pAvg_supp : ∀ i j, ¬ cov j → s.pAvg.ent i j = 0
+  /-- integrated map from primary: totals preserved on covered faces -/
+  pInt_col : ∀ j, j < nP → cov j → s.pInt.colSum j = 1
+  pInt_supp : ∀ i j, ¬ cov j → s.pInt.ent i j = 0
+  /-- averaged map from secondary: constants to constants -/
+  sAvg_row : ∀ i, i < s.pInt.r → s.sAvg.rowSum i = 1
+  /-- integrated map from secondary: totals preserved -/
+  sInt_col : ∀ j, j < nS → s.sInt.colSum j = 1
+
+/-- ghost context of one side: covered primary faces and the grid sizes -/
+structure Ctx where
+  cov : Nat → Prop
+  nP : Nat
+  nS : Nat
+
+/-- the hypotheses under which an update is meaningful: the matching matrices have the fitting
+    shapes and the stochasticity `match_1d` delivers (theorems `match1d_avg_rowsum_one`,
+    `match1d_int_colsum_one`).  `c'` is the context after the update. -/
+def ValidUpd (c : Ctx) (s : Side) (c' : Ctx) : SideUpd → Prop
+  | .mortar a i =>
+    c'.cov = c.cov ∧ c'.nP = c.nP ∧ c'.nS = c.nS ∧ a.c = s.pInt.r ∧ i.c = s.pInt.r ∧ a.r = i.r ∧
+    (∀ k, k < a.r → a.rowSum k = 1) ∧ (∀ k, k < s.pInt.r → i.colSum k = 1)
+  | .secondary a i =>
+    c'.cov = c.cov ∧ c'.nP = c.nP ∧ a.r = s.pInt.r ∧ i.r = s.pInt.r ∧ a.c = c'.nS ∧ i.c = c'.nS ∧
+    (∀ k, k < s.pInt.r → a.rowSum k = 1) ∧ (∀ k, k < c'.nS → i.colSum k = 1)
+  | .primary a i =>
+    c'.nS = c.nS ∧ a.r = c.nP ∧ i.r = c.nP ∧ a.c = c'.nP ∧ i.c = c'.nP ∧
+    (∀ f, f < c.nP → c.cov f → a.rowSum f = 1) ∧
+    (∀ f g, c.cov f → ¬ c'.cov g → a.ent f g = 0) ∧
+    (∀ g, g < c'.nP → c'.cov g → i.colSum g = 1) ∧
+    (∀ f g, ¬ c.cov f → c'.cov g → i.ent f g = 0) ∧
+    (∀ f g, c.cov f → ¬ c'.cov g → i.ent f g = 0)
+
+/-- states of one side reachable from a state satisfying the invariant by valid updates -/
+inductive Reachable : Ctx → Side → Prop where
+  | init (c : Ctx) (s : Side) : SideInv c.cov c.nP c.nS s → Reachable c s
+  | step (c c' : Ctx) (s : Side) (u : SideUpd) : Reachable c s → ValidUpd c s c' u →
+      Reachable c' (s.apply u)
 
 end PorepyVerif.C26
